@@ -84,6 +84,7 @@ struct ModelHost {
 	virtual void violation(const std::string &prop, const std::string &rule, const std::string &detail) = 0;
 	virtual void harness_error(const std::string &what) = 0;
 	virtual void fetch_changed(int c, const JV &id) { (void)c; (void)id; }
+	virtual bool observable(int c) { (void)c; return true; }
 };
 
 // ------------------------------------------------------------------ reference model
@@ -113,7 +114,7 @@ struct Model {
 		uint64_t created = 0; std::string tprec;
 	};
 	struct User { std::string password; std::set<std::string> fg, sg, cg; bool admin = false, readonly = false, has_password = true, has_auth = true; };
-	struct Decision { int state = 0; std::function<void(bool ok)> commit; std::string what; };
+	struct Decision { int state = 0; std::function<void(bool ok)> commit; std::string what; bool silent_refusal = false; bool silent_accept = false; };
 
 	ModelHost *host = nullptr;
 	std::map<int, Peer> peers;
@@ -139,6 +140,7 @@ struct Model {
 	void on_routed_seen(int ref, const std::string &rid);
 	void resolve_decision(int d, bool ok);
 	bool decision_pending() const;
+	std::vector<int> silent_decisions() const;
 	void check_deadlines(uint64_t now, bool final);
 	int pending_routed() const;
 	bool has_unbound_routed() const;
